@@ -890,7 +890,7 @@ func run(c *hl.Ctx) {
 		le3 := famCfg{fullB: 0, maxDec: 3, finalMaxDec: 2, extraMaxDec: 99, splitMaxDec: 2}
 		le2 := famCfg{fullB: 0, maxDec: 2, finalMaxDec: 1, extraMaxDec: 99, splitMaxDec: 1}
 		tree2 := famCfg{fullB: 4, maxDec: 2, finalMaxDec: 1, extraMaxDec: 99, splitMaxDec: 1}
-		tree4 := famCfg{fullB: 4, maxDec: 1, finalMaxDec: 1, extraMaxDec: 99, splitMaxDec: 1}
+		tree4 := famCfg{fullB: 4, maxDec: 1, finalMaxDec: 1, extraMaxDec: 99, splitMaxDec: 0}
 		for _, s := range s3 {
 			emit("S/value", value(s), full2)
 			emit("S/element", element(s), full4)
